@@ -407,6 +407,24 @@ def sorted_prefix(ctx, repo: Repo, pid: str):
                 verdict, why_ = False, f"the stored / compared count `{cnt}` is not the current number of nodes"
         elif stores and not tests:
             verdict, why_ = False, "the cached array is stored but never validated"
+        if verdict is None and len(stores) > 1:
+            from .astutil import Canon
+            for f_s, st_ in stores:
+                ve = Canon(Canon.single_defs(f_s.node.body)).expand(st_.value)
+                # definitions of the stored names in the SAME block as the store (the branch that refreshes the cache)
+                blk = getattr(st_, "_parent", None)
+                sibs = []
+                for fld in ("body", "orelse"):
+                    b_ = getattr(blk, fld, None)
+                    if isinstance(b_, list) and st_ in b_:
+                        sibs = b_
+                names_ = {n_.id for n_ in ast.walk(ve) if isinstance(n_, ast.Name)}
+                txt = src(ve) + " ".join(src(a.value) for a in sibs if isinstance(a, ast.Assign) and len(a.targets) == 1 and
+                                         isinstance(a.targets[0], ast.Name) and a.targets[0].id in names_)
+                if "self.current_nodes" in txt:
+                    verdict, why_ = False, ("the new cache content is assembled from the OLD cached array plus a part of the nodes: correct only if "
+                                            "exactly the assumed nodes were added since the cache was filled (e.g. one division), otherwise nodes are "
+                                            "missing from the sorted array and the wrong array stays cached")
         if verdict:
             ctx.ok("OWN", f"{pid}.cache.key", "the sorted-node cache is stored together with, and validated against, the current node count",
                    stores[0][0].where, norm_stmt(stores[0][1]))
